@@ -286,7 +286,7 @@ def rule_gr5(prog):
             else:
                 r.fail(Finding(PROP, 'R-GR-5', f.where(), f.short(),
                                'return', 'Parser.__call__ returns %r on a '
-                               'path %s' % (v, [repr(m) for m in marker])))
+                               'path %s' % (v, [repr(m) for m in marker])), witness=v)
             continue
         if v.implicit:
             continue
@@ -308,7 +308,7 @@ def rule_gr5(prog):
             r.fail(Finding(PROP, 'R-GR-5', I.where(v.node, f.module),
                            f.short(), 'uncaught-raise',
                            'Parser.__call__ raises %r outside a handler' % (
-                               exc,)))
+                               exc,)), witness=v)
             continue
         handled.add(caught.split('.')[-1])
         good = isinstance(cls, ClassInfo) and cls.is_subclass_of(perr) and \
@@ -319,7 +319,7 @@ def rule_gr5(prog):
                 'translation:%s->%s' % (caught, cls.short() if cls else exc),
                 'lark\'s %s is re-raised as %s instead of the package\'s '
                 'positioned %s' % (caught, cls.short() if cls else exc,
-                                   caught.split('.')[-1])))
+                                   caught.split('.')[-1])), witness=v)
         else:
             r.ok()
         pos_ok = len(args) == 2 and args[0] == s and \
@@ -331,7 +331,7 @@ def rule_gr5(prog):
                 PROP, 'R-GR-5', I.where(v.node, f.module), f.short(),
                 'position:%s' % caught,
                 'the error raised for %s does not carry the input string '
-                'and lark\'s position: %r' % (caught, args)))
+                'and lark\'s position: %r' % (caught, args)), witness=v)
     if handled != {'UnexpectedToken', 'UnexpectedCharacters'}:
         r.fail(Finding(
             PROP, 'R-GR-5', f.where(), f.short(),
